@@ -119,6 +119,7 @@ func inspectDepth(root ast.Node, f func(ast.Node) bool, depth int, stack []*prog
 		// the call's own operands are visited by the enclosing traversal; then the body, with the
 		// helper's parameters standing for this call's arguments
 		frame := bindFrame(info, fi.Decl.Type, call)
+		bindRecv(frame, fi, call)
 		defer func() {
 			bindStack = append(bindStack, frame)
 			inspectDepth(fi.Decl.Body, f, depth+1, append(stack, fi))
@@ -157,6 +158,21 @@ func bindFrame(info *types.Info, ft *ast.FuncType, call *ast.CallExpr) map[types
 	return frame
 }
 
+// bindRecv adds the receiver of a method helper to a bind frame: inside `b.shareAs(n)` the
+// receiver variable stands for the expression the method was called on.
+func bindRecv(frame map[types.Object]ast.Expr, fi *prog.FuncInfo, call *ast.CallExpr) {
+	if fi == nil || fi.Decl == nil || fi.Decl.Recv == nil || len(fi.Decl.Recv.List) != 1 || len(fi.Decl.Recv.List[0].Names) != 1 {
+		return
+	}
+	sel, ok := ast.Unparen(call.Fun).(*ast.SelectorExpr)
+	if !ok {
+		return
+	}
+	if o := fi.Pkg.TypesInfo.Defs[fi.Decl.Recv.List[0].Names[0]]; o != nil {
+		frame[o] = sel.X
+	}
+}
+
 // boundArg returns what a parameter stands for in the innermost descent that binds it.
 func boundArg(o types.Object) ast.Expr {
 	for i := len(bindStack) - 1; i >= 0; i-- {
@@ -192,6 +208,12 @@ func localClosure(info *types.Info, id *ast.Ident) *ast.FuncLit {
 func init() {
 	prog.ResolveLocal = func(info *types.Info, id *ast.Ident) ast.Expr {
 		def := derefStep(info, id)
+		if _, isCall := ast.Unparen(def).(*ast.CallExpr); (def == nil || isCall) && !inDerefStep {
+			// `x, err := helper(...)`: what the extracted helper returns at x's position
+			if t := derefTuple(info, id); t != nil {
+				def = t
+			}
+		}
 		if def == nil {
 			return nil
 		}
@@ -278,7 +300,9 @@ func init() {
 	}
 	pathsim.DefaultInline = func(p *prog.Prog, fi *prog.FuncInfo) bool { return isNewHelper(p, fi) }
 	pathsim.BindCall = func(callerInfo *types.Info, fi *prog.FuncInfo, call *ast.CallExpr) func() {
-		bindStack = append(bindStack, bindFrame(callerInfo, fi.Decl.Type, call))
+		frame := bindFrame(callerInfo, fi.Decl.Type, call)
+		bindRecv(frame, fi, call)
+		bindStack = append(bindStack, frame)
 		return func() { bindStack = bindStack[:len(bindStack)-1] }
 	}
 }
